@@ -140,8 +140,20 @@ def _judge_lookup(F, m, out):
             return ok
         good = True
         why = []
+        unknown = []
         n_some = 0
+        rets_ = []
         for (rb, kind, data) in ret_defs(b):
+            # `_0 = move _t` with _t the result of one call (a spliced helper's return value): judge that call
+            hops = 0
+            while kind == 'assign' and data['k'] == 'use' and data['ops'][0]['k'] != 'const' and not data['ops'][0]['p']['proj'] and hops < 4:
+                ds_ = fl.defs.get(data['ops'][0]['p']['l'], [])
+                if len(ds_) != 1 or ds_[0][4]:
+                    break
+                rb, kind, data = ds_[0][0], ds_[0][2], ds_[0][3]
+                hops += 1
+            rets_.append((rb, kind, data))
+        for (rb, kind, data) in rets_:
             if kind == 'assign':
                 rv = data
                 if rv['k'] == 'agg' and rv.get('vname') == 'None':
@@ -164,8 +176,7 @@ def _judge_lookup(F, m, out):
                         good = False
                         why.append('a Some return is not guarded by the strong-hash comparison')
                     continue
-                good = False
-                why.append('opaque return')
+                unknown.append('the returned value is computed in a way these rules do not follow')
             else:
                 c = callee(data)
                 if c == 'std::ops::FromResidual::from_residual':
@@ -211,16 +222,25 @@ def _judge_lookup(F, m, out):
                 if dl is not None:
                     n_some += 1
                     for (k, okk) in dl:
-                        if not okk:
+                        if okk is None:
+                            unknown.append('delegates to %s, whose confirmation could not be read' % k.split('::')[-1])
+                        elif not okk:
                             good = False
                             why.append('delegates to %s, which is not confirming for this window' % k.split('::')[-1])
                     continue
+                if F.body(c) is not None:
+                    unknown.append('returns the result of %s, which is not read' % c.split('::')[-1])
+                    continue
                 good = False
                 why.append('returns the result of %s' % c)
+        if good and unknown:
+            # nothing positively wrong was seen, but part of what the lookup returns was not understood: no verdict on it
+            out[m] = (None, '; '.join(sorted(set(unknown))))
+            return
         if n_some == 0:
             good = False
             why.append('no Some return recognised')
-        out[m] = (good, '; '.join(sorted(set(why))))
+        out[m] = (good, '; '.join(sorted(set(why + unknown))))
 
 
 class Scan:
